@@ -152,7 +152,7 @@ class DfltModel(Comp):
 
     def gen(self, rng, tier, scale=1.0):
         pre = []
-        for i in range(self.n(tier, 260, 9000, scale)):
+        for i in range(self.n(tier, 1200, 40000, scale)):
             m, ig = dflt_case(rng, userord=(i % 3 == 0), state=(i % 2 == 0), constraints=(i % 4 != 3))
             if i % 5 == 0:
                 ig.edp = 0.8                # many explicit nodes that carry the default value
@@ -184,6 +184,13 @@ class DfltModel(Comp):
                 if r < 0.12:
                     # print with tagged defaults and parse back without validation: nodes that are new and default
                     s.add("rt", "t0", "t0", "x", PRINT_SIBLINGS | rng.choice([WD_ALL_TAG, WD_IMPL_TAG]), PARSE_STRICT | PARSE_ONLY, 0)
+                if rng.random() < 0.2:
+                    # what a datastore does: the difference to another valid instance is applied without validation; the
+                    # created explicit nodes sit next to the default instances until the next validation removes those
+                    f2 = yanggen.cross(rng, f, ig.forest(m, config_only=False), m.nodes) if rng.random() < 0.7 else ig.forest(m, config_only=False)
+                    s.parse(1, "x", yanggen.to_xml(f2))
+                    s.add("ifok", "diff", "t0", "t1", 0, "t3")
+                    s.add("ifok", "apply", "t0", "t3")
                 for _ in range(rng.randrange(1, 5)):
                     r = rng.random()
                     if r < 0.35:
@@ -213,11 +220,25 @@ class DfltModel(Comp):
                             s.add("newpath", "t0", "c0", 0, hexs(p), "~")
             pre.append((m, s, marks))
         outs = stage1([s.line() for _, s, _ in pre])
+        # a crash: it may come after a FAILED validation (no guarantees for such a tree, the history ends there); find
+        # the first validation that fails or crashes by running the prefixes that end after each validation
+        for i, ((m, s, marks), out) in enumerate(zip(pre, outs)):
+            if not (out.startswith("CRASH(") or out == "TIMEOUT"):
+                continue
+            ends = [k for k, c in enumerate(s.cmds) if c.startswith("val ") or c.startswith("implicit ")]
+            pouts = stage1(["lyx\t" + "\t".join(s.cmds[:k + 1]) for k in ends])
+            for k, po in zip(ends, pouts):
+                if po.startswith("CRASH(") or po == "TIMEOUT":
+                    s.cmds = s.cmds[:k + 1]          # the validation itself crashes: keep it, T2 reports it
+                    break
+                if rc(results(po)[k]) != 0:
+                    s.cmds = s.cmds[:k + 1]          # ends with a failing validation
+                    outs[i] = po
+                    break
         L = []
         for (m, s, marks), out in zip(pre, outs):
             r = results(out)
             if out.startswith("CRASH(") or out == "TIMEOUT" or len(r) < len(s.cmds):
-                # keep the case up to the first validation: the T2 run reports the crash (witness classifies it)
                 cmds = [pseudo("s", treeenc.schema_line(m)), pseudo("n", treeenc.name_table(m))] + s.cmds
                 L.append("dfltm\t" + "\t".join(cmds))
                 continue
@@ -290,6 +311,8 @@ class DfltModel(Comp):
             for j in range(5, len(p) - 1):
                 if p[j] == "@yang" and p[j + 1].startswith("operation="):
                     op = bytes.fromhex(p[j + 1][len("operation="):]).decode()
+                if p[j] == "@yang" and p[j + 1].startswith("orig-default=") and op == "none":
+                    op = "flag"
             ents.append((int(p[0]), p[2], p[3], p[4], op))
         out = []
         stack = []          # (sid, segment text, op)
@@ -307,8 +330,10 @@ class DfltModel(Comp):
                         kv[n2] = v2[1:] if v2 != "=" else "-"
                 seg += "[" + ",".join(kv.get(k, "?") for k in keys) + "]"
             eff = op if op else (stack[-1][2] if stack else None)
+            if eff in ("flag", "replace") and not op:
+                eff = "none"                  # not inherited
             stack.append((sid, seg, eff))
-            if eff in ("create", "delete"):
+            if eff in ("create", "delete", "flag", "replace"):
                 out.append("%s %s%s:%s" % (eff[0], "/".join(x[1] for x in stack), val, "d" if "d" in flags else ""))
             elif eff not in (None, "none"):
                 out.append("%s %s%s:%s" % (eff, "/".join(x[1] for x in stack), val, "d" if "d" in flags else ""))
@@ -360,15 +385,24 @@ class DfltModel(Comp):
     def norm(self, line, out):
         if " | end:" in out:
             return " | ".join(self.impl_parts(line, out))
-        # model: the Q lines (theorem hypotheses / conclusions on this tree) are compared as a whole: all must hold
-        return " | ".join("Q" if self.q_ok(p) else p for p in out.split(" | "))
+        # model: the Q lines (theorem hypotheses / conclusions on this tree) are compared as a whole: all must hold;
+        # so must the hypothesis / conclusion of the with-defaults theorem on every printed tree
+        parts = []
+        for p in out.split(" | "):
+            if p.startswith("Q "):
+                parts.append("Q" if self.q_ok(p) else p)
+            elif p.startswith("P") and " W=" in p and p.endswith(" R=1"):
+                parts.append(p.split(" W=")[0])       # the printed set is the RFC 6243 one
+            else:
+                parts.append(p)
+        return " | ".join(parts)
 
     @staticmethod
     def q_ok(part):
         if not part.startswith("Q "):
             return False
         kv = dict(x.split("=", 1) for x in part[2:].split(" "))
-        return kv["N"] == "1" and kv["A"] == "1" and kv["F"] == "1" and kv["C"] == "1"
+        return kv["N"] == "1" and kv["A"] == "1" and kv["F"] == "1" and kv["C"] == "1" and kv["K"] == "1" and kv["D"] == "1"
 
     def witness(self, line, model_out, impl_out):
         """does the PROPERTY fail on the implementation for this case (not only the correspondence)?"""
@@ -402,7 +436,9 @@ class DfltModel(Comp):
                     t = None
                     if why == {"llpartial"}:
                         t = "dflt-leaflist-partial"
-                    elif why <= {"leftover", "llpartial"}:
+                    elif "leftover" in why and why <= {"leftover", "llpartial", "missing"}:
+                        # the left-over defaults keep their case alive: the defaults of the choice's default case are
+                        # "missing" then
                         t = "dflt-nested-case-leftover"
                     return (t, "the validated tree is not the normal form of its explicit content (%s): %s"
                             % (",".join(sorted(why)), a[i - 1][:300]))
@@ -410,9 +446,32 @@ class DfltModel(Comp):
                     t = "vdiff-np-container" if (kv["AS"] == "1" and "gone" in kv["S"]) else None
                     return (t, "the change set applied to the tree before validation does not give the tree after (%s)" % kv["S"])
                 return None
-            if x.startswith("V0") and y.startswith("VE3") and i + 1 < len(a) and a[i + 1].startswith("Q ") and "recreate" in a[i + 1]:
+            if x.startswith("P") and " W=" in x and x.split(" W=")[0] == y:
+                w = x.split(" W=")[1]
+                why = set(w.split(" ")[0].split(":", 1)[1].split(",")) if w.startswith("0:") else set()
+                if why == {"ll"}:
+                    return ("wd-leaflist-partial-default", "with-defaults mode %s: the printed node set is not the one RFC 6243 "
+                            "defines (an explicit leaf-list instance equals one default value): %s" % (x.split(" ")[0], x[:200]))
+                return (None, "with-defaults printing: flags inconsistent or node set differs from RFC 6243 (%s)" % w)
+            raw = model_out.split(" | ")
+            if x.startswith("V0") and y.startswith("VE3") and i + 1 < len(raw) and raw[i + 1].startswith("Q ") and \
+                    raw[i + 1].split(" S=")[1] != "":
                 return ("vdiff-np-recreate", "lyd_validate_all(.., &diff) returns LY_EINVAL on valid data: a default NP container "
-                                             "is auto-deleted and created again by the same validation")
+                                             "is auto-deleted (not recorded) and its path is used again by the same validation (%s)"
+                        % raw[i + 1].split(" S=")[1])
+            if x[:1] == "P" and y[:1] == "P" and x.split(" ")[0] == y.split(" ")[0] and " R=1" in x:
+                # the model's selection is the RFC 6243 view (R=1) and libyang printed something else
+                return (None, "with-defaults print (options %s): the printed node set / default tags differ from the RFC 6243 "
+                              "view of the tree: printed %s, RFC %s" % (x.split(" ")[0][1:], y[:300], x[:300]))
+            if x[:2] == "V0" and y[:2] == "V0" and x.split(" # ")[0] != y.split(" # ")[0]:
+                # another tree than the model's: is libyang's tree the normal form?
+                q = self.model_q(line, y.split(" # ")[0][3:])
+                if q and "N=0" in q:
+                    return (None, "the tree validation produced is not the normal form of its explicit content (%s): %s"
+                            % (q, y[:300]))
+                if q and ("C=0" in q or "D=0" in q):
+                    return (None, "the tree validation produced is not canonical / holds an unsound default flag (%s)" % q)
+                return None
             if x[:2] in ("V0", "I0") and y[:2] == x[:2] and x.split(" # ")[0] == y.split(" # ")[0]:
                 # same tree, another change list
                 dx = set(x.split(" # ")[1].split(";")) ^ set(y.split(" # ")[1].split(";"))
@@ -424,6 +483,18 @@ class DfltModel(Comp):
                 return (None, "the returned change set differs from the changes validation made: %s" % sorted(dx)[:4])
             return None
         return None
+
+    @staticmethod
+    def model_q(line, dump):
+        """run the model's checks (#q) on a tree libyang produced"""
+        import vlib
+        cmds = [c for c in line.split("\t")[1:] if c.startswith("#s ") or c.startswith("#n ")]
+        try:
+            outs, _ = vlib.run_cases(vlib.build_model("dflt"), ["dfltm\t" + "\t".join(cmds + ["#t " + dump, "#q"])], timeout=60)
+        except Exception:
+            return None
+        parts = outs[0].split(" | ") if outs else []
+        return parts[-1] if parts and parts[-1].startswith("Q ") else None
 
     @classmethod
     def dupinst_names(cls, line):
